@@ -72,7 +72,7 @@ theorem parse_total (toInt : Str → Option Int) (parts : List Str) :
 /-- the same for lines: `parseLine` is `parseParts` after `split(' ')` -/
 theorem parseLine_total (toInt : Str → Option Int) (line : Str) :
     (∃ e, parseLine toInt line = .ok e) ∨ parseLine toInt line = .raised .valueError :=
-  parse_total toInt (pySplit line)
+  parse_total toInt (pySplitWs line)
 
 /-- a line whose priority is the last column is rejected with `ValueError` (and therefore logged
 and skipped by `_parseInventory`) -/
@@ -503,9 +503,12 @@ example :
 
 /-! ## round trip: `parse (generate tree)` -/
 
-/-- no space and no line-break character (the exact condition under which a column survives
-`splitlines` and `split(' ')`) -/
-def OkStr (s : Str) : Prop := ∀ c ∈ s, c ≠ ' ' ∧ isLineBreak c = false
+/-- no whitespace character (`str.isspace`): the exact condition under which a column survives
+`splitlines` and `split()` -/
+def OkStr (s : Str) : Prop := ∀ c ∈ s, isReSpace c = false
+
+/-- a usable name: not empty (`split()` drops empty columns) and free of whitespace -/
+def OkName (s : Str) : Prop := s ≠ [] ∧ OkStr s
 
 instance (s : Str) : Decidable (OkStr s) := by unfold OkStr; exact inferInstance
 
@@ -517,7 +520,9 @@ theorem OkStr_append {a b : Str} : OkStr (a ++ b) ↔ OkStr a ∧ OkStr b := by
     · exact h1 c hc
     · exact h2 c hc
 
-theorem OkStr_cons {c : Char} {s : Str} : OkStr (c :: s) ↔ (c ≠ ' ' ∧ isLineBreak c = false) ∧ OkStr s := by
+instance (s : Str) : Decidable (OkName s) := by unfold OkName; exact inferInstance
+
+theorem OkStr_cons {c : Char} {s : Str} : OkStr (c :: s) ↔ isReSpace c = false ∧ OkStr s := by
   simp [OkStr]
 
 def lineBreaks : List Char :=
@@ -527,21 +532,42 @@ def lineBreaks : List Char :=
 theorem isLineBreak_iff (c : Char) : isLineBreak c = true ↔ c ∈ lineBreaks := by
   simp [isLineBreak, lineBreaks, or_assoc]
 
-/-- characters that must not appear in a written column (`$` matters at the end of a location) -/
-def badChar (c : Char) : Bool := c = ' ' || isLineBreak c || c = '$'
+def wsChars : List Char :=
+  [' ', '\t', '\n', '\r', Char.ofNat 0x0b, Char.ofNat 0x0c, Char.ofNat 0x1c, Char.ofNat 0x1d, Char.ofNat 0x1e,
+   Char.ofNat 0x1f, Char.ofNat 0x85, Char.ofNat 0xa0, Char.ofNat 0x1680, Char.ofNat 0x2000, Char.ofNat 0x2001,
+   Char.ofNat 0x2002, Char.ofNat 0x2003, Char.ofNat 0x2004, Char.ofNat 0x2005, Char.ofNat 0x2006, Char.ofNat 0x2007,
+   Char.ofNat 0x2008, Char.ofNat 0x2009, Char.ofNat 0x200a, Char.ofNat 0x2028, Char.ofNat 0x2029, Char.ofNat 0x202f,
+   Char.ofNat 0x205f, Char.ofNat 0x3000]
 
-theorem bad_not_safe : ∀ b ∈ ' ' :: '$' :: lineBreaks, isSafeChar b = false := by decide
+theorem isReSpace_iff (c : Char) : isReSpace c = true ↔ c ∈ wsChars := by
+  simp [isReSpace, wsChars]
+
+theorem lineBreaks_are_space : ∀ b ∈ lineBreaks, isReSpace b = true := by decide
+
+/-- a character that is not whitespace is neither the space nor a `splitlines` separator -/
+theorem notWs_facts {c : Char} (h : isReSpace c = false) : c ≠ ' ' ∧ isLineBreak c = false := by
+  constructor
+  · intro hc; subst hc; revert h; decide
+  · cases hb : isLineBreak c with
+    | false => rfl
+    | true =>
+      have := lineBreaks_are_space c ((isLineBreak_iff c).mp hb)
+      rw [this] at h; cases h
+
+/-- characters that must not appear in a written column (`$` matters at the end of a location) -/
+def badChar (c : Char) : Bool := isReSpace c || c = '$'
+
+theorem bad_not_safe : ∀ b ∈ '$' :: wsChars, isSafeChar b = false := by decide
 
 theorem safe_not_bad (c : Char) (h : isSafeChar c = true) : badChar c = false := by
   cases hb : badChar c with
   | false => rfl
   | true =>
     exfalso
-    have hmem : c ∈ ' ' :: '$' :: lineBreaks := by
+    have hmem : c ∈ '$' :: wsChars := by
       simp only [badChar, Bool.or_eq_true, decide_eq_true_eq] at hb
-      rcases hb with (h1 | h2) | h3
-      · simp [h1]
-      · have := (isLineBreak_iff c).mp h2; simp [this]
+      rcases hb with h1 | h3
+      · have := (isReSpace_iff c).mp h1; simp [this]
       · simp [h3]
     rw [bad_not_safe c hmem] at h
     cases h
@@ -568,7 +594,7 @@ theorem OkStr_of_not_bad {s : Str} (h : ∀ c ∈ s, badChar c = false) : OkStr 
   intro c hc
   have := h c hc
   simp only [badChar, Bool.or_eq_false_iff, decide_eq_false_iff_not] at this
-  exact ⟨this.1.1, this.1.2⟩
+  exact this.1
 
 theorem quote_ok (s : Str) : OkStr (quote s) := OkStr_of_not_bad (quote_not_bad s)
 
@@ -631,22 +657,49 @@ theorem lineText_eq_join (full : Str) (kind : Kind) (url : Str) :
 
 theorem pyInt_minus_one : pyInt ['-', '1'] = some (-1) := by decide
 
+/-- `split()` reads a whitespace-free run into the current token -/
+theorem splitWsAux_token : ∀ (t rest cur : Str), OkStr t →
+    splitWsAux (t ++ rest) cur = splitWsAux rest (t.reverse ++ cur)
+  | [], rest, cur, _ => by simp
+  | c :: t, rest, cur, h => by
+    have hc : isReSpace c = false := h c (by simp)
+    have ih := splitWsAux_token t rest (c :: cur) (fun x hx => h x (by simp [hx]))
+    simp [splitWsAux, hc, ih]
+
+/-- `split()` is the left inverse of `' '.join` on non-empty whitespace-free tokens -/
+theorem pySplitWs_join : ∀ (toks : List Str), (∀ t ∈ toks, OkName t) → pySplitWs (pyJoin toks) = toks
+  | [], _ => by simp [pySplitWs, pyJoin, splitWsAux]
+  | [t], h => by
+    obtain ⟨hne, hok⟩ := h t (by simp)
+    have := splitWsAux_token t [] [] hok
+    simp only [List.append_nil] at this
+    simp [pySplitWs, pyJoin, List.intercalate_singleton, this, splitWsAux, hne]
+  | t :: t' :: ts, h => by
+    obtain ⟨hne, hok⟩ := h t (by simp)
+    have ih := pySplitWs_join (t' :: ts) (fun x hx => h x (by simp [hx]))
+    have hj : pyJoin (t :: t' :: ts) = t ++ ' ' :: pyJoin (t' :: ts) := by
+      simp [pyJoin, List.intercalate_cons_cons]
+    have hsp : isReSpace ' ' = true := by decide
+    simp only [pySplitWs] at ih ⊢
+    rw [hj, splitWsAux_token t _ [] hok]
+    simp [splitWsAux, hsp, hne, ih]
+
 /-- a written line parses back to its columns -/
-theorem parseLine_lineText (full : Str) (kind : Kind) (url : Str) (hf : OkStr full) (hu : OkStr url) :
+theorem parseLine_lineText (full : Str) (kind : Kind) (url : Str) (hf : OkName full) (hu : OkName url) :
     parseLine pyInt (lineText full kind url) =
       .ok ⟨full, pyPrefix ++ kind.domain, -1, url, ['-']⟩ := by
-  have hx : ∀ l ∈ columns full kind url, ' ' ∉ l := by
+  have hx : ∀ l ∈ columns full kind url, OkName l := by
     intro l hl
     simp only [columns, List.mem_cons, List.not_mem_nil, or_false] at hl
     rcases hl with rfl | rfl | rfl | rfl | rfl
-    · exact fun h => (hf _ h).1 rfl
-    · exact fun h => (domain_ok kind _ h).1 rfl
+    · exact hf
+    · exact ⟨by simp [pyPrefix], domain_ok kind⟩
     · decide
-    · exact fun h => (hu _ h).1 rfl
+    · exact hu
     · decide
-  have hsplit : pySplit (lineText full kind url) = columns full kind url := by
+  have hsplit : pySplitWs (lineText full kind url) = columns full kind url := by
     rw [lineText_eq_join]
-    exact List.splitOn_intercalate ' ' hx (by simp [columns])
+    exact pySplitWs_join _ hx
   unfold parseLine
   rw [hsplit]
   simp [parseParts, columns, scanPrio, pyInt_minus_one, getIdx, pyJoin, List.intercalate_singleton]
@@ -672,17 +725,17 @@ theorem lineText_nobreak (full : Str) (kind : Kind) (url : Str) (hf : OkStr full
   have hd := domain_ok kind
   simp only [lineText, List.mem_append, List.mem_cons, List.not_mem_nil, or_false, or_assoc] at hc
   rcases hc with hc | rfl | hc | hc | rfl | rfl | rfl | rfl | hc | rfl | rfl
-  · exact (hf c hc).2
+  · exact (notWs_facts (hf c hc)).2
   · decide
-  · exact (hd c (by simp [hc])).2
-  · exact (hd c (by simp [hc])).2
-  all_goals first | decide | exact (hu c hc).2
+  · exact (notWs_facts (hd c (by simp [hc]))).2
+  · exact (notWs_facts (hd c (by simp [hc]))).2
+  all_goals first | decide | exact (notWs_facts (hu c hc)).2
 
 /-- the text `_generateContent` produces for a list of objects -/
 def render (objs : List Obj) : Str :=
   objs.flatMap fun o => lineText o.full o.kind o.url ++ ['\n']
 
-def ObjOk (o : Obj) : Prop := OkStr o.full ∧ OkStr o.url
+def ObjOk (o : Obj) : Prop := OkName o.full ∧ OkName o.url
 
 theorem splitlines_render : ∀ (objs : List Obj), (∀ o ∈ objs, ObjOk o) →
     splitlines (render objs) = objs.map fun o => lineText o.full o.kind o.url
@@ -691,7 +744,7 @@ theorem splitlines_render : ∀ (objs : List Obj), (∀ o ∈ objs, ObjOk o) →
     have ho := h o (by simp)
     have ih := splitlines_render objs (fun x hx => h x (by simp [hx]))
     simp only [render, List.flatMap_cons, List.append_assoc, List.singleton_append, List.map_cons] at ih ⊢
-    rw [splitlines_append_nl _ _ (lineText_nobreak _ _ _ ho.1 ho.2), ih]
+    rw [splitlines_append_nl _ _ (lineText_nobreak _ _ _ ho.1.2 ho.2.2), ih]
 
 def entryOf (base : Str) (o : Obj) : Str × Link := (o.full, (base, o.url))
 
@@ -812,17 +865,17 @@ objects' full names contain no space and no line-break character: the writer suc
 pydoctor's reader maps its output to exactly the dict built, in document order, from the visible
 reachable objects — name ↦ (base, url) — with nothing logged.
 
-Hypothesis `hnames` is needed (see `roundtrip_needs_names`) and is what pydoctor's builder
+Hypothesis `hnames` (full names are non-empty and free of whitespace) is needed (see `roundtrip_needs_names`) and is what pydoctor's builder
 guarantees for reachable objects (names are Python identifiers). -/
 theorem roundtrip (roots : List Tree) (base : Str) (hroots : rootsOk roots)
-    (hnames : ∀ o ∈ visibleObjects roots, OkStr o.full) :
+    (hnames : ∀ o ∈ visibleObjects roots, OkName o.full) :
     ∃ content, generateContent roots = .ok content ∧
       parseInventory pyInt base content =
         ([], .ok (Dict.update [] ((visibleObjects roots).map (entryOf base)))) := by
   refine ⟨render (visibleObjects roots), genList_roots _ roots hroots, ?_⟩
   apply parseInventory_render
   intro o ho
-  exact ⟨hnames o ho, visList_url_ok _ none roots o ho⟩
+  exact ⟨hnames o ho, (visList_url_last _ none roots o ho).1, visList_url_ok _ none roots o ho⟩
 
 theorem Dict.set_not_mem : ∀ (d : Dict) (k : Str) (v : Link), k ∉ d.map (·.1) → d.set k v = d ++ [(k, v)]
   | [], k, v, _ => rfl
@@ -904,7 +957,7 @@ theorem Dict.update_empty_self (l : List (Str × Link)) :
 visible objects have pairwise distinct full names, the dict read back is literally the list of
 visible reachable objects, each once, in document order, name ↦ (base, url). -/
 theorem roundtrip_exact (roots : List Tree) (base : Str) (hroots : rootsOk roots)
-    (hnames : ∀ o ∈ visibleObjects roots, OkStr o.full)
+    (hnames : ∀ o ∈ visibleObjects roots, OkName o.full)
     (hdistinct : ((visibleObjects roots).map (·.full)).Nodup) :
     ∃ content, generateContent roots = .ok content ∧
       parseInventory pyInt base content = ([], .ok ((visibleObjects roots).map (entryOf base))) := by
@@ -944,7 +997,7 @@ def exForest : List Tree :=
        .node ['H'] .klass true [.node ['g'] .method false []],
        .node ['f','n'] .function false []]]]
 
-example : rootsOk exForest ∧ (∀ o ∈ visibleObjects exForest, OkStr o.full) ∧
+example : rootsOk exForest ∧ (∀ o ∈ visibleObjects exForest, OkName o.full) ∧
     ((visibleObjects exForest).map (·.full)).Nodup := by
   refine ⟨by simp [rootsOk, exForest, Kind.ownPage], by decide, by decide⟩
 
@@ -1059,7 +1112,7 @@ def namesOf (ts : List Tree) : List Str := ts.map Tree.name
 mutual
 /-- every name is a plain identifier-like string and sibling names are pairwise distinct -/
 def WellNamed : Tree → Prop
-  | .node n _ _ cs => OkStr n ∧ '.' ∉ n ∧ WellNamedList cs ∧ (namesOf cs).Nodup
+  | .node n _ _ cs => OkName n ∧ '.' ∉ n ∧ WellNamedList cs ∧ (namesOf cs).Nodup
 def WellNamedList : List Tree → Prop
   | [] => True
   | t :: ts => WellNamed t ∧ WellNamedList ts
@@ -1074,18 +1127,18 @@ theorem WellNamedList_mem : ∀ (ts : List Tree), WellNamedList ts → ∀ t ∈
     · exact hw.1
     · exact WellNamedList_mem ts hw.2 t' h
 
-theorem WellNamed_name : (t : Tree) → WellNamed t → OkStr t.name ∧ '.' ∉ t.name
+theorem WellNamed_name : (t : Tree) → WellNamed t → OkName t.name ∧ '.' ∉ t.name
   | .node n _ _ _, h => by simp only [WellNamed] at h; exact ⟨h.1, h.2.1⟩
 
-theorem fullNameOf_ok (parent : Option Str) (n : Str) (hp : ∀ p, parent = some p → OkStr p)
-    (hn : OkStr n) : OkStr (fullNameOf parent n) := by
+theorem fullNameOf_ok (parent : Option Str) (n : Str) (hp : ∀ p, parent = some p → OkName p)
+    (hn : OkName n) : OkName (fullNameOf parent n) := by
   cases parent with
   | none => exact hn
-  | some p => exact OkStr_append.mpr ⟨hp p rfl, OkStr_cons.mpr ⟨by decide, hn⟩⟩
+  | some p => exact ⟨by simp [fullNameOf], OkStr_append.mpr ⟨(hp p rfl).2, OkStr_cons.mpr ⟨by decide, hn.2⟩⟩⟩
 
 mutual
-theorem visTree_full_ok (rn : List Str) (parent : Option Str) (hp : ∀ p, parent = some p → OkStr p) :
-    (t : Tree) → WellNamed t → ∀ o ∈ visTree rn parent t, OkStr o.full
+theorem visTree_full_ok (rn : List Str) (parent : Option Str) (hp : ∀ p, parent = some p → OkName p) :
+    (t : Tree) → WellNamed t → ∀ o ∈ visTree rn parent t, OkName o.full
   | .node name kind hidden cs => by
     intro hw o ho
     simp only [WellNamed] at hw
@@ -1098,8 +1151,8 @@ theorem visTree_full_ok (rn : List Str) (parent : Option Str) (hp : ∀ p, paren
       · exact hF
       · exact visList_full_ok rn (some (fullNameOf parent name))
           (fun p h => by simp only [Option.some.injEq] at h; subst h; exact hF) cs hw.2.2.1 o ho
-theorem visList_full_ok (rn : List Str) (parent : Option Str) (hp : ∀ p, parent = some p → OkStr p) :
-    (ts : List Tree) → WellNamedList ts → ∀ o ∈ visList rn parent ts, OkStr o.full
+theorem visList_full_ok (rn : List Str) (parent : Option Str) (hp : ∀ p, parent = some p → OkName p) :
+    (ts : List Tree) → WellNamedList ts → ∀ o ∈ visList rn parent ts, OkName o.full
   | [] => by simp [visList]
   | t :: ts => by
     intro hw o ho
@@ -1216,7 +1269,7 @@ theorem visList_nodup (rn : List Str) (parent : Option Str) :
 end
 
 /-- **roundtrip_wellNamed**: the round trip with its hypotheses discharged from the shape of the
-tree — names without space/line break/dot, sibling names distinct, visible roots are page objects:
+tree — names non-empty and without whitespace or dot, sibling names distinct, visible roots are page objects:
 the writer succeeds and the reader returns exactly the visible reachable objects, each once, in
 document order, name ↦ (base, url), and every one of them resolves through `getLink`. -/
 theorem roundtrip_wellNamed (roots : List Tree) (base : Str) (hroots : rootsOk roots)
@@ -1225,7 +1278,7 @@ theorem roundtrip_wellNamed (roots : List Tree) (base : Str) (hroots : rootsOk r
       parseInventory pyInt base content = ([], .ok ((visibleObjects roots).map (entryOf base)))) ∧
     (∀ o ∈ visibleObjects roots,
       getLink ((visibleObjects roots).map (entryOf base)) o.full = some (base ++ '/' :: o.url)) := by
-  have hnames : ∀ o ∈ visibleObjects roots, OkStr o.full :=
+  have hnames : ∀ o ∈ visibleObjects roots, OkName o.full :=
     visList_full_ok _ none (fun p h => by cases h) roots hw
   have hdistinct : ((visibleObjects roots).map (·.full)).Nodup := visList_nodup _ none roots hw hn
   exact ⟨roundtrip_exact roots base hroots hnames hdistinct, (getLink_roundtrip roots base hdistinct).1⟩
@@ -1547,11 +1600,11 @@ theorem role_never_obj (k : DocKind) : k.cls ≠ .other := by cases k <;> decide
 
 /-- **written_lines**: the file has exactly one line per visible reachable object, in document order -/
 theorem written_lines (roots : List Tree) (hroots : rootsOk roots)
-    (hnames : ∀ o ∈ visibleObjects roots, OkStr o.full) :
+    (hnames : ∀ o ∈ visibleObjects roots, OkName o.full) :
     ∃ content, generateContent roots = .ok content ∧
       splitlines content = (visibleObjects roots).map fun o => lineText o.full o.kind o.url :=
   ⟨render (visibleObjects roots), genList_roots _ roots hroots,
-   splitlines_render _ (fun o ho => ⟨hnames o ho, visList_url_ok _ none roots o ho⟩)⟩
+   splitlines_render _ (fun o ho => ⟨hnames o ho, (visList_url_last _ none roots o ho).1, visList_url_ok _ none roots o ho⟩)⟩
 
 /-! ## the whole file: `update` on the bytes `generate` wrote -/
 
@@ -1643,17 +1696,37 @@ theorem encodeUtf8_lines : ∀ ls : List Str,
     simp only [List.flatMap_cons, List.flatMap_append, List.map_cons, List.flatMap_nil, h1, h2, ih]
     simp
 
+theorem collapseAux_no_nl : ∀ (s : Str) (prev : Bool), '\n' ∉ collapseAux prev s
+  | [], _ => by simp [collapseAux]
+  | c :: cs, prev => by
+    have ih1 := collapseAux_no_nl cs true
+    have ih2 := collapseAux_no_nl cs false
+    simp only [collapseAux]
+    by_cases hc : isReSpace c = true
+    · simp only [hc, if_true]
+      cases prev
+      · simp only [Bool.false_eq_true, if_false, List.mem_cons, not_or]
+        exact ⟨by decide, ih1⟩
+      · simpa using ih1
+    · simp only [hc, Bool.false_eq_true, if_false, List.mem_cons, not_or]
+      refine ⟨?_, ih2⟩
+      intro heq
+      apply hc
+      rw [← heq]
+      decide
+
 /-- **file_roundtrip**: `SphinxInventory.update` applied to the bytes `generate` writes
 (header + compressed content) puts exactly the visible reachable objects into `_links` and
-logs nothing — for every compressor/decoder pair honouring their contracts, provided project
-name and version contain no newline (otherwise the header itself is broken). -/
+logs nothing — for every compressor/decoder pair honouring their contracts and for EVERY project
+name and version (whitespace in them is collapsed by `_generateHeader` since 2626e70; before that a
+newline broke the header: `old_header_newline_counterexample`). -/
 theorem file_roundtrip (zip : Bytes → Bytes) (unzip : Bytes → Option Bytes) (decode : Bytes → Option Str)
     (project version url base : Str) (roots : List Tree)
     (hzip : ∀ c, generateContent roots = .ok c → unzip (zip (encodeUtf8 c)) = some (encodeUtf8 c))
     (hdec : ∀ c, generateContent roots = .ok c → decode (encodeUtf8 c) = some c)
     (hz0 : ∀ c, generateContent roots = .ok c → (zip (encodeUtf8 c)).head? ≠ some 35)
-    (hproj : '\n' ∉ project) (hver : '\n' ∉ version) (hurl : rsplitSlash url = some base)
-    (hroots : rootsOk roots) (hnames : ∀ o ∈ visibleObjects roots, OkStr o.full) :
+    (hurl : rsplitSlash url = some base)
+    (hroots : rootsOk roots) (hnames : ∀ o ∈ visibleObjects roots, OkName o.full) :
     ∃ file, generateFile zip project version roots = .ok file ∧
       update unzip decode pyInt ⟨[], []⟩ url (some file) =
         (⟨Dict.update [] ((visibleObjects roots).map (entryOf base)), []⟩, .ok ()) := by
@@ -1665,9 +1738,9 @@ theorem file_roundtrip (zip : Bytes → Bytes) (unzip : Bytes → Option Bytes) 
     rcases hc with rfl | rfl | rfl | rfl
     · decide
     · rw [encodeUtf8_append]; simp only [List.mem_append, not_or]
-      exact ⟨by decide, encodeUtf8_no_nl _ hproj⟩
+      exact ⟨by decide, encodeUtf8_no_nl _ (collapseAux_no_nl project false)⟩
     · rw [encodeUtf8_append]; simp only [List.mem_append, not_or]
-      exact ⟨by decide, encodeUtf8_no_nl _ hver⟩
+      exact ⟨by decide, encodeUtf8_no_nl _ (collapseAux_no_nl version false)⟩
     · decide
   have hfile : encodeUtf8 (headerText project version) ++ zip (encodeUtf8 content) =
       ((headerLines project version).map encodeUtf8).flatMap (fun c => 35 :: c ++ [10]) ++ zip (encodeUtf8 content) := by
@@ -1693,5 +1766,80 @@ example (roots : List Tree) : ∃ (zip : Bytes → Bytes) (unzip : Bytes → Opt
    by intro c _; simp, by intro c h; simp [h], by intro c _; simp⟩
 
 example : rsplitSlash "http://h/doc/objects.inv".toList = some "http://h/doc".toList := by decide
+
+/-! ## round-3 review items: the four fixed defects (historical statements over the old defs) and
+what the code does at the edges -/
+
+/-- HISTORICAL (before 2626e70, `generateFileOld`): with the project name `a\nb` the second header
+line was `b`, the comment-stripping loop stopped there and the reader reported "Failed to
+uncompress" for the file pydoctor itself wrote. -/
+theorem old_header_newline_counterexample :
+    (match generateFileOld (fun y => 120 :: y) ['a', '\n', 'b'] ['1'] [] with
+     | .ok file =>
+       (update (fun y => match y with | 120 :: r => some r | _ => none) (fun _ => some []) pyInt ⟨[], []⟩
+          "h/objects.inv".toList (some file)).1 == ⟨[], [.uncompress ['h']]⟩
+     | .raised _ => false) = true := by decide +kernel
+
+/-- the same project name now: the file reads back (nothing logged) -/
+example :
+    (match generateFile (fun y => 120 :: y) ['a', '\n', 'b'] ['1'] [] with
+     | .ok file =>
+       (update (fun y => match y with | 120 :: r => some r | _ => none) (fun _ => some []) pyInt ⟨[], []⟩
+          "h/objects.inv".toList (some file)).1 == ⟨[], []⟩
+     | .raised _ => false) = true := by decide +kernel
+
+/-- name kept for the manifest: `file_roundtrip` itself is now the statement without the newline
+hypothesis (the header fields are whitespace-collapsed by the code) -/
+theorem file_roundtrip_collapsed (zip : Bytes → Bytes) (unzip : Bytes → Option Bytes) (decode : Bytes → Option Str)
+    (project version url base : Str) (roots : List Tree)
+    (hzip : ∀ c, generateContent roots = .ok c → unzip (zip (encodeUtf8 c)) = some (encodeUtf8 c))
+    (hdec : ∀ c, generateContent roots = .ok c → decode (encodeUtf8 c) = some c)
+    (hz0 : ∀ c, generateContent roots = .ok c → (zip (encodeUtf8 c)).head? ≠ some 35)
+    (hurl : rsplitSlash url = some base)
+    (hroots : rootsOk roots) (hnames : ∀ o ∈ visibleObjects roots, OkName o.full) :
+    ∃ file, generateFile zip project version roots = .ok file ∧
+      update unzip decode pyInt ⟨[], []⟩ url (some file) =
+        (⟨Dict.update [] ((visibleObjects roots).map (entryOf base)), []⟩, .ok ()) :=
+  file_roundtrip zip unzip decode project version url base roots hzip hdec hz0 hurl hroots hnames
+
+example : String.ofList (collapseWs "My\nProject  x\t".toList) = "My Project x " := by decide
+
+/-- HISTORICAL (before 96f18c4, `parseLineSp` = split at single spaces): a line with two spaces
+between columns was ACCEPTED under a key with a trailing space — not reported, and the intended
+name did not resolve -/
+theorem old_double_space_wrong_key :
+    parseLineSp pyInt "a.good  py:function 1 a.html#good -".toList =
+      .ok ⟨"a.good ".toList, "py:function".toList, 1, "a.html#good".toList, ['-']⟩ := by decide
+
+/-- HISTORICAL: a tab-separated line was one token: rejected (and reported) -/
+theorem old_tab_separated_rejected :
+    parseLineSp pyInt "a.good\tpy:function\t1\ta.html#good\t-".toList = .raised .valueError := by decide
+
+/-- now (`line.split()`): both spellings read like the single-space line, as Sphinx reads them;
+totality (`parseLine_total`) is `parse_total`, which holds for every token list -/
+theorem split_ws_reads_like_sphinx :
+    parseLine pyInt "a.good  py:function 1 a.html#good -".toList =
+      .ok ⟨"a.good".toList, "py:function".toList, 1, "a.html#good".toList, ['-']⟩ ∧
+    parseLine pyInt "a.good\tpy:function\t1\ta.html#good\t-".toList =
+      .ok ⟨"a.good".toList, "py:function".toList, 1, "a.html#good".toList, ['-']⟩ := by decide
+
+/-- the two splitters agree on lines whose columns are separated by single spaces and are not empty -/
+theorem splitters_agree (toks : List Str) (h : ∀ t ∈ toks, OkName t) (hne : toks ≠ []) :
+    pySplitWs (pyJoin toks) = pySplit (pyJoin toks) := by
+  rw [pySplitWs_join toks h]
+  symm
+  apply List.splitOn_intercalate ' ' _ hne
+  intro l hl hmem
+  have := (h l hl).2 ' ' hmem
+  revert this; decide
+
+/-- granularity of compression / encoding failures is the FILE (review items 2, 3): one byte that
+is not UTF-8, or a zlib stream cut short, makes `_getPayload` return '' after one logged error;
+the good lines before and after it are not read.  This is `update_unusable_reported`; here on a
+concrete inventory whose decoder fails. -/
+example :
+    update (fun _ => some []) (fun _ => none) pyInt ⟨[(['k'], (['b'], ['l']))], []⟩
+      "h/objects.inv".toList (some [120]) =
+    (⟨[(['k'], (['b'], ['l']))], [.decode ['h']]⟩, .ok ()) := by decide
 
 end Inventory
